@@ -53,6 +53,7 @@ type c01bCase struct {
 	ExpiryAfter    int         `json:"expiryAfter"`
 	FarExpiry      bool        `json:"farExpiry,omitempty"` // expiry in 2090 instead
 	Revoked        bool        `json:"revoked,omitempty"`
+	ForeignKey     bool        `json:"foreignKey,omitempty"` // proof made with (and naming) a key of ANOTHER, active DID document
 	Trusted        bool        `json:"trusted"`
 	TrustOtherType bool        `json:"trustOtherType,omitempty"` // trust entry exists but for another credential type
 	AllowUntrusted bool        `json:"allowUntrusted"`
@@ -68,8 +69,9 @@ func c01bGen(t *rapid.T) c01bCase {
 		Kind:           rapid.SampledFrom([]string{"org", "ura"}).Draw(t, "kind"),
 		KeySel:         rapid.Uint32Range(0, 7).Draw(t, "key"),
 		Revoked:        rapid.IntRange(0, 9).Draw(t, "revoked") == 0,
+		ForeignKey:     rapid.IntRange(0, 11).Draw(t, "foreignKey") == 0,
 		Trusted:        rapid.IntRange(0, 9).Draw(t, "trusted") > 1,
-		TrustOtherType: rapid.Bool().Draw(t, "trustOther"),
+		TrustOtherType: rapid.IntRange(0, 6).Draw(t, "trustOther") == 0,
 		AllowUntrusted: rapid.IntRange(0, 9).Draw(t, "allowUntrusted") > 6,
 	}
 	n := rapid.IntRange(0, 6).Draw(t, "nhist")
@@ -130,6 +132,10 @@ func c01bRun(x *h.Ctx, c c01bCase) {
 		ctrlDead = c01Ptr(c01T0.Add(time.Duration(c.CtrlDeactAt) * time.Second))
 		ctrl.publish(x, *ctrlDead, nil, true)
 	}
+	// an unrelated, always active DID document whose key may be (mis)used to sign the credential
+	foreign := f.newDID(x)
+	foreign.newKey(x)
+	foreign.publish(x, c01T0.Add(-50*time.Second), []int{0}, false)
 	// history
 	issuer.newKey(x)
 	versions := []c01bVersion{{at: c01T0, assertion: []int{0}}}
@@ -192,6 +198,9 @@ func c01bRun(x *h.Ctx, c c01bCase) {
 	subjectDID := "did:nuts:c01subject"
 	spec := c01CredSpec{Format: c.Format, Issuer: issuer.DID.String(), KID: issuer.keys[key].KID,
 		ID: fmt.Sprintf("%s#cred-%d", issuer.DID.String(), f.seq.Add(1)), Issued: issued, Expires: expires}
+	if c.ForeignKey {
+		spec.KID = foreign.keys[0].KID
+	}
 	if c.Kind == "ura" {
 		spec.Type, spec.Contexts = "NutsUraCredential", []string{"https://nuts.nl/credentials/2024"}
 		spec.Subject = []any{map[string]any{"id": subjectDID, "organization": map[string]any{"ura": "1234", "name": "n", "city": "c"}}}
@@ -235,6 +244,9 @@ func c01bRun(x *h.Ctx, c c01bCase) {
 	reference := func(at *time.Time) (verdict, string) {
 		if c.Revoked {
 			return mustReject, "revoked"
+		}
+		if c.ForeignKey {
+			return mustReject, "proof-by-key-of-another-did"
 		}
 		if !trusted && !c.AllowUntrusted {
 			return mustReject, "untrusted"
